@@ -102,7 +102,13 @@ func VerifC12Restore() {
 	case 2:
 		body = "{% continue %}"
 	}
-	switch nd.Choice(3) {
+	switch nd.Choice(5) {
+	case 3: // a loop that selects nothing (its else branch renders) leaves the variables alone too
+		src = "{% for x in none %}" + body + "{% else %}<{{x}}>{% endfor %}[{{x}}|{{forloop}}]"
+		want = "<" + px + ">[" + px + "|" + pf + "]"
+	case 4: // cut to nothing by its modifiers, with and without an else branch
+		src = "{% for x in (1..3) limit: 0 %}" + body + "{% else %}-{% endfor %}{% for x in (1..3) offset: 7 %}" + body + "{% endfor %}[{{x}}|{{forloop}}]"
+		want = "-[" + px + "|" + pf + "]"
 	case 0: // user-bound x and forloop are restored
 		src = "{% for x in (1..2) %}" + body + "{% endfor %}[{{x}}|{{forloop}}]"
 		switch exit {
